@@ -11,7 +11,7 @@ import bufdrive
 
 
 def main(ctx, args):
-    n, steps, mc = (240, 40, (2, 5)) if ctx.quick else (4000, 60, (3, 6))
+    n, steps, mc = (240, 40, (3, 6)) if ctx.quick else (4000, 60, (3, 7))      # (3, 6): the scope at which TLC found the :xa defect
     return bufdrive.bufs_check(ctx, "C02", n, steps, mc,
         "scripts = seeded command sequences built from the model state; one evaluation = one command compared; non-trivial = "
         "commands attributed to this property (switch/open for C20; quit, refusals and modified-flag soundness for C02)",
